@@ -14,7 +14,7 @@ class C12(PropCheck):
     id = "C12"
     props_file = "Props/C12.v"
     shard = 60
-    quick_cases = 3000
+    quick_cases = 2000
     thorough_cases = 30000
     assumptions = [
         "distances are IEEE-754 doubles computed as sqrt(sum of squared differences) in index order "
@@ -93,6 +93,8 @@ class C12(PropCheck):
         return out
 
     def replay(self, payload):
+        if "kind" in payload and "case" not in payload:
+            payload = dict(case=payload)      # a corpus file is a bare case
         case = payload.get("case")
         if case is not None and case.get("kind") == "mc" and case.get("device") is None:
             print("stock-device sweep case:", case)
